@@ -20,10 +20,12 @@ from common import Ctx, Finding, Outcome, err_class
 
 sys.path.insert(0, str(Path(__file__).resolve().parent.parent / "tools"))
 import gen_schema  # noqa: E402
+from c09_src import gen_molschema_src  # noqa: E402
 
 PROPERTY = "C09"
 LEAN_TARGETS = ["QcelVerif.Props.C09", "QcelVerif.Props.C09Dict", "QcelVerif.Props.C09Hash", "QcelVerif.Props.C09Typed",
-                "QcelVerif.Model.ResultValues", "QcelVerif.Model.ResultKwargs", "QcelVerif.Props.C09Models", "QcelVerif.Driver.C09"]
+                "QcelVerif.Model.ResultValues", "QcelVerif.Model.ResultKwargs", "QcelVerif.Props.C09Models", "QcelVerif.Model.MolSchemaAst",
+                "QcelVerif.Gen.MolSchemaSrc", "QcelVerif.Props.C09Src", "QcelVerif.Model.MolDictAst", "QcelVerif.Props.C09SrcFilter", "QcelVerif.Driver.C09"]
 DRIVER = "QcelVerif/Driver/C09.lean"
 THEOREMS = [
     ("QcelVerif.Schema.emit_conforms", "for every declaration environment, type and in-memory value: hasType v ty -> the JSON emitted for v (unset/None dropped, keys by alias, arrays flattened) validates against schemaOf ty under the generated definitions (any fuel; 3x the typing fuel suffices)"),
@@ -75,15 +77,26 @@ THEOREMS = [
     ("QcelVerif.C09Models.wfn_shapes_nonempty", "whatever the wavefunction protocol keeps and the validators reshape (C20's wfnField, unchanged), every array the resulting WavefunctionProperties holds has rank >= 1 if every supplied one had"),
     ("QcelVerif.C09Models.rank0_array_counterexample", "the rank >= 1 demand is needed where no validator reshapes: a rank-0 localized_fock_a passes C20's validator untouched, is emitted as a bare number, and the schema's type:array rejects it at every fuel"),
     ("QcelVerif.C09Hash.revalidate_same_hash_partial", "PARTIAL: re-validating the sparse dict() has the same hash IF from_schema maps it to a record with the same hash fields and the held geometry, and float_prep is idempotent on it (from_arrays on sparse input is a hypothesis)"),
+    ("QcelVerif.MolSchema.src_translated", "the translator harness/c09_src.py recognised every statement of to_schema (dtype 1/2 branch), from_schema and _filter_defaults on this run (otherwise it emits inert terms and this fails)"),
+    ("QcelVerif.MolSchema.src_toSchema_eq", "for EVERY record, dtype 1 and 2, every np_out and copy flag (units='Bohr'): the generic evaluator at the term re-read from to_schema.py returns a dictionary whose 19 molecule keys, schema_name, schema_version and dtype-1 nesting are exactly the hand model's toSchema (key routing, unit chain with the input_units_to_au / conversion_factor choice, nat, name default, guards), and the caller's record still holds its own geometry"),
+    ("QcelVerif.MolSchema.src_toSchema_total", "hence the source-derived to_schema never raises on a record and its decoded result is toSchema (existential form used by the headlines)"),
+    ("QcelVerif.MolSchema.src_toSchema_bad_dtype", "an integer dtype other than the ones listed in the source (1, 2) makes the source-derived to_schema raise ValidationError"),
+    ("QcelVerif.MolSchema.src_toSchema_keys", "the keys the source writes into the molecule dictionary are the hand model's 19 plus provenance, each once, in the source's order"),
+    ("QcelVerif.MolSchema.src_fromSchema_eq", "for EVERY schema dictionary (any name / version / nesting, any subset of the 19 keys): the generic evaluator at the term re-read from from_schema.py (name/version chain, fragment pattern default, every keyword of the contiguize_from_fragment_pattern and from_arrays calls with [k] vs .get(k, None)) yields exactly the hand model's fromSchemaArgs - same from_arrays arguments, same exception class; contiguize's BODY is the hand model"),
+    ("QcelVerif.MolSchema.src_fromArrays_constants", "the source passes units='Bohr', input_units_to_au=None, domain='qm', speclabel=False to from_arrays, throw_reorder=True to contiguize, overwrites provenance with its own stamp, and to_schema applies unnp exactly when np_out is false"),
+    ("QcelVerif.MolSchema.src_roundtrip_args_partial", "PARTIAL: under the record invariant, source-derived from_schema applied to what source-derived to_schema returned (v = 1, 2; any np_out / copy) hands from_arrays the record's own arrays, recovered separators and exported geometry; the dictionary is passed between the two evaluators through decode/encode (19 keys + name/version/nesting) - that from_schema reads no other entry is not a theorem"),
+    ("QcelVerif.MolSchema.src_exported_geometry_bohr", "the geometry entry the source-derived to_schema writes (nested for v1, top level for v2) is exportGeom: the stored geometry, times the record's input_units_to_au or the default factor when stored in Angstrom"),
+    ("QcelVerif.MolSchema.src_filterDefaults_eq", "for EVERY molecule dictionary and every default-mass table: the generic evaluator at the term re-read from _filter_defaults (molecule.py: nat, default_mass, each pop and each guarded group of pops in order, each guard with the key it compares) returns exactly the hand model's MolDict.filterDefaults - same dictionary, same KeyError cases"),
 ]
-TRANSLATORS = [gen_schema.main]
+TRANSLATORS = [gen_schema.main, gen_molschema_src]
 TRUSTED_BASE = [
     "Lean 4.33 kernel; axioms of every theorem audited on every run (subset of propext, Classical.choice, Quot.sound)",
     "pydantic-v1 (validation/coercion producing the in-memory instance; Model.schema() generation) is a PARAMETER: hand model schemaOf/declSchema of its generation rules for the occurring subset, tied per run by `declSchema(env) = exported` (Lean driver op `tie`) and by hasType on every generated instance",
     "hand-written constructor models Model/ResultValues.lean of Provenance, BasisSet (ElectronShell, ECPPotential, BasisCenter), AtomicResultProperties, AtomicInput (Model, AtomicResultProtocols, ErrorCorrectionProtocol, Identifiers, the Molecule OBJECT) and AtomicResult (WavefunctionProperties, ComputeError): what pydantic + the validators of basis.py / results.py / common_models.py leave in the set fields for well-formed keywords (int -> float coercion, strip / cast of schema_name, nbf checksum, array reshapes and the wavefunction / stdout / native_files protocols through C20's Model/Protocols.lean, reused unchanged). Tied per instance by the driver op `build`: the keywords of every generated instance (Model/ResultKwargs.lean decodes them; strict) -> ok must hold, emit(value(keywords)) must equal Model.json(exclude_unset, exclude_none) exactly (ints and floats apart), uniq must hold exactly when no uniqueItems keyword fails under python-jsonschema, ok & uniq must give hasType and a valid document. Array SHAPES are not part of the emitted JSON and are tied by C20, not here",
     "in the `build` keywords the harness (norm_kwargs) converts numeric strings / ints of basis exponents and coefficients with CPython float() (pydantic's str -> float coercion is float(); not modelled), array keywords with np.asarray(dtype=float), and replaces the molecule keywords of AtomicInput / AtomicResult by the Molecule object the instance holds (how keywords become that object is Model/MolDict.lean, tied by the op `construct`)",
     "tools/gen_schema.py: re-encodes Model.__fields__ as Ty terms and Model.schema() as Schema terms; drops annotation keywords (title, description, default, shape, units, $schema); picks the two schema_extra edit forms of models/basis.py from the exported schema (recorded in evidence)",
-    "hand-written models Model/Schema.lean (emit = ProtoModel.dict + pydantic _iter + JSONArrayEncoder; Draft-04 validator for the occurring keywords; tiny matcher for the three `^(…)$` patterns) and Model/MolSchema.lean (to_schema.py:40-112, from_schema.py:27-190), tied by differential correspondence incl. perturbed (invalid) documents against python-jsonschema",
+    "hand-written models Model/Schema.lean (emit = ProtoModel.dict + pydantic _iter + JSONArrayEncoder; Draft-04 validator for the occurring keywords; tiny matcher for the three `^(…)$` patterns) and Model/MolSchema.lean (to_schema.py:40-112, from_schema.py:27-190; its toSchema and fromSchemaArgs are now PROVED equal to the terms regenerated from the source, see the next entry - what stays hand-written and differential there is contiguize, the body of contiguize_from_fragment_pattern), tied by differential correspondence incl. perturbed (invalid) documents against python-jsonschema",
+    "translator gen_molschema_src in harness/c09_src.py (python `ast` of molparse/to_schema.py, molparse/from_schema.py, models/molecule.py -> lean/QcelVerif/Gen/MolSchemaSrc.lean): statement order, branch order and every key string of to_schema's dtype-1/2 branch, from_schema up to the from_arrays call and _filter_defaults are translated; anything outside the small syntax of Model/MolSchemaAst.lean raises (broken obligation) and leaves inert terms with translationOk := false, so Props/C09Src.lean fails with it. Trusted: that it maps each recognised python shape to the constructor documented for it; the evaluator's reading of those constructors (np.array / .tolist() / deepcopy / unnp keep the VALUES and evaluate as the identity: container types and aliasing of anything but the geometry are not represented and stay with the harness oracle np_out / record_modified; `geom *= f` on np.array(x, copy=False) of an ndarray writes through to the caller); the key names of Molrec / MolDict / Contig as python dictionaries (recDict, encMol, decodeMol, contigDict); provenance is an opaque value handed through. For _filter_defaults the evaluator (Model/MolDictAst.lean) works on the hand model's MolDict with keys addressed by name (encMol for reads, popField for pops: trusted naming) and is proved equal to MolDict.filterDefaults (Props/C09SrcFilter.lean); the REST of Molecule.__init__ around it (schema_name / version defaults, the to_schema(from_schema(kwargs)) call with copy=False / np_out=True, {**kwargs, **schema}, title-casing, float_prep) stays the hand model Model/MolDict.lean + the driver op `construct`",
     "hand-written model Model/MolDict.lean of Molecule.__init__ / _filter_defaults / {**kwargs, **schema} / dict() / the accessors (molecule.py:334-384, 449-509, 592-595, 1489-1513), tied by the driver op `construct` on generated keywords: the 19 modelled dict() entries exactly (geometry through the exact model of np.around: rndDouble products/quotients, zero band), the remaining keys (schema_name/version, provenance, extras, identifiers, id) by a rule stated in harness/c09.py:check_construct, and Molecule(**mol.dict()).dict() == mol.dict(); the embedding MolDict.molVal of that object as an in-memory value is tied by emit(molVal) == Molecule.json() (provenance/extras/identifiers/id aside) and hasType = T on every construction; pydantic's coercions (list -> ndarray, int -> float) are the identity on exact values and are not represented",
     "from_arrays is a parameter of the C09 models (Model/MolSchema.lean, Model/MolDict.lean): in the driver its value is what the implementation's from_schema returned; in Props/C09Hash.lean it is C04's model (faOfC04) under C04's hypotheses (Inv, >= 1 atom, hgeo, hre; bridge scope: exact products, non-negative separators). Molecule.get_hash is C11's model: SHA-1 and float printing abstract; to_mass, float_prep (one coordinate) and str.title are parameters of the hash theorems (the driver runs concrete ones)",
     "hypotheses of molecule_canon_of_record that are not proved from C04: `agreesB` (where _filter_defaults dropped the schema's entry of a hash key the caller spelled out, the caller's entry is the one from_arrays handed back; no caller bonds when the record has none) and `singleOkB` (one-fragment records list the molecular charge/multiplicity as the fragment's - false for the open finding C05-molecule-from-string-single-fragment-mult); both are evaluated by the driver on every generated construction (agreesB false = mismatch; singleOkB counted)",
@@ -94,7 +107,8 @@ ASSUMPTIONS = [
     "finite floats only (NaN/inf are not JSON); str dict keys; values in Any-typed slots are None/bool/int/float/str/list/dict/ndarray",
     "instances are built through the public constructors (validation on), plus Molecule(validate=False) on already valid data; 0-atom molecules do not exist (from_arrays refuses them)",
     "to_schema with units='Bohr' and dtype 1 or 2 (dtype 'psi4' and Angstrom export are outside C09)",
-    "np_out only changes container types and is not represented in the Lean model (both settings are compared by the harness)",
+    "string route stream: only texts molparse.from_string accepts are evaluated (refused texts are not valid molecules); only the masses are compared there (Molecule.from_data(text).masses vs from_string(text)['qm']['mass'], exactly)",
+    "np_out only changes container types (and, in the source-derived evaluator, could change a key: proved not to, src_toSchema_eq holds for both values); container types themselves are not represented in the Lean models (both settings are compared by the harness)",
     "Model/ResultValues.lean: keyword input as the generators produce it - declared keywords of the declared kind (str / int / float-or-int / bool / enum member / list / dict), nested models as keyword dicts, array keywords of rank >= 1 (a rank-0 value for the one unreshaped array field pair localized_fock_a/b is accepted by the constructor and emitted as a bare number: rank0_array_counterexample; not generated), ASCII whitespace / case in schema_name, str dict keys; a keyword given as None for an Optional field is read as absent; WavefunctionProperties pointers (orbitals_a, ...) name array fields; instances passed as already-built sub-model objects other than the molecule are outside the constructor models (the generic `conf` check still covers them)",
     "Model/MolDict.lean: validating construction with orient=False, schema_version 2 (version 1 has no nested 'molecule' entry: KeyError, modelled; other versions: ValidationError), ASCII symbols; orient=True, geometry_noise != 8, nonphysical=True and Molecule(validate=False) without a validated flag are outside the model; Molecule-level hash theorem for dtype 2 (a dtype-1 dictionary is not a Molecule keyword set; dtype 1 is covered at record level)",
 ]
@@ -113,7 +127,11 @@ RULE = (
     "(outcome class, fragment shape) and non-trivial when it has an optional block, an alias, an array, or is refused. Every generated instance of the "
     "five non-Molecule models also goes through the constructor models (op `build`, from its KEYWORDS); Any / Dict[str, Any] slots (keywords, extras, "
     "Provenance / Model extra attributes, native_files, ComputeError.extras, Molecule.id, the dict form of return_result) carry nested random values "
-    "(None inside dicts and lists, lists of dicts, ndarrays, ints next to floats, non-ASCII / empty keys)."
+    "(None inside dicts and lists, lists of dicts, ndarrays, ints next to floats, non-ASCII / empty keys). Every molrec x dtype x np_out case and every "
+    "(malformed) schema dictionary is also sent to the SOURCE-DERIVED voice (ops srctoschema / srcfromschema: the evaluator at the terms re-read from the source on "
+    "this run, with the copy flag of that very call) and compared three ways: source-derived = hand model textually, hand model ~ implementation, and the geometry "
+    "the caller's record holds after the call. String route (last stream): 1-3 atom texts, mostly carbon (the one element whose default mass is "
+    "an exact integer), atoms optionally carrying `@mass` within 4e-4 of the default -> Molecule.from_data(text).masses must be from_string(text)'s masses exactly."
 )
 LEVEL_TEXT = (
     "proof, partial: conformance is proved for every value of every declared type against the generated schema, and the generated "
@@ -131,9 +149,17 @@ LEVEL_TEXT = (
     "arbitrary; declarations re-tied by decls_tie at every build; array shapes by C20's shape model); BasisSet and the two models embedding one need the "
     "explicit uniqueness hypothesis uniq, proved necessary (basis_uniq_needed = known finding C09-basis-uniqueItems). What stays differential for them: that "
     "pydantic + the validators really produce value(keywords) (tied per generated instance by emit(value) == Model.json()), float(str) of basis numbers, and "
-    "instances built from sub-model OBJECTS instead of keywords (still covered per instance by the generic conf/hasType check)."
+    "instances built from sub-model OBJECTS instead of keywords (still covered per instance by the generic conf/hasType check). "
+    "Source tie (Props/C09Src.lean): the key routing of to_schema (dtype 1 / 2 branch: which molrec key goes to which schema key, unit chain and factor "
+    "choice, nat, name default, guards, dtype validation, dtype-1 nesting, independence of np_out and copy, caller's geometry untouched) and of from_schema "
+    "(name / version dispatch, fragment-pattern default, [k] vs .get(k, None), every keyword of the contiguize and from_arrays calls, the literals units='Bohr' / "
+    "domain='qm') is REGENERATED FROM THE SOURCE on every run and PROVED equal to Model/MolSchema.lean for all records / all dictionaries; the round-trip-arguments "
+    "and Bohr-geometry headlines are restated over the source-derived functions (round trip partial: dictionary handed over through decode/encode). "
+    "_filter_defaults is regenerated statement by statement and PROVED equal to MolDict.filterDefaults for all dictionaries (Props/C09SrcFilter.lean). "
+    "Still hand-modelled / differential: the body of contiguize_from_fragment_pattern, container types (np_out, unnp), provenance, the psi4 dtype, the rest of "
+    "Molecule.__init__ around the translators (merge, title, float_prep, dict())."
 )
-TECHNIQUE = "Lean 4 proof (structural/fuel induction over a type language and a Draft-04 validator; list lemmas for np.split) + per-run schema tie + differential correspondence against pydantic/jsonschema"
+TECHNIQUE = "Lean 4 proof (structural/fuel induction over a type language and a Draft-04 validator; list lemmas for np.split; source -> AST -> equality with the hand model for the schema translators) + per-run schema tie + differential correspondence against pydantic/jsonschema"
 
 KNOWN_KIND = "oracle:conformance_uniqueItems"
 
@@ -1323,6 +1349,10 @@ def _same_value(a, b) -> bool:
     return type(a) is type(b) and a == b
 
 
+def _zero_copy(rec, v, np_out):
+    return (len(rec["elem"]) + v + int(np_out)) % 2 == 0
+
+
 def check_toschema(ctx, out: Outcome, recs):
     """recs: list of (case_kwargs, molrec).  Compares to_schema(rec, v, np_out) with the model, evaluates the oracle."""
     import qcelemental as qcel
@@ -1334,12 +1364,19 @@ def check_toschema(ctx, out: Outcome, recs):
     lines, meta = [], []
     for kw, rec in recs:
         for v in (1, 2):
-            lines.append(molrec_line(rec, v, dflt, formula_generator(rec["elem"])))
+            base = molrec_line(rec, v, dflt, formula_generator(rec["elem"]))
+            lines.append(base)
+            # the source-derived voice (Model/MolSchemaAst.lean at Gen/MolSchemaSrc.lean), one line per np_out with the copy flag of that call
+            for np_out in (True, False):
+                f = base.split("|")
+                lines.append("|".join(["srctoschema"] + f[1:4] + [T_(np_out), T_(not _zero_copy(rec, v, np_out))] + f[4:]))
             meta.append((kw, rec, v))
     model_out = [None] * len(lines)
     if ctx.model_available:
         model_out = ctx.run_model(DRIVER, lines)
-    for (kw, rec, v), ml in zip(meta, model_out):
+    for j, (kw, rec, v) in enumerate(meta):
+        ml = model_out[3 * j]
+        src_lines = {True: model_out[3 * j + 1], False: model_out[3 * j + 2]}
         for np_out in (True, False):
             case = {"stream": "molrec", "from_arrays": kw, "dtype": v, "np_out": np_out}
             out.evaluations += 1
@@ -1347,12 +1384,16 @@ def check_toschema(ctx, out: Outcome, recs):
             out.nontrivial(("molrec", v, np_out, rec["units"], "input_units_to_au" in rec, len(rec["fragment_separators"]), len(rec["elem"]), "connectivity" in rec, "fix_symmetry" in rec))
             # the documented zero-copy option on every other case: the caller's record must come out of the export as it went in
             # (a second export of the same record is then the same schema), and the export itself must not depend on the option
-            zero_copy = (len(rec["elem"]) + v + int(np_out)) % 2 == 0
+            zero_copy = _zero_copy(rec, v, np_out)
             work = copy.deepcopy(rec)
             case["copy"] = not zero_copy
             try:
                 with contextlib.redirect_stdout(io.StringIO()):
                     sd = to_schema(work, dtype=v, np_out=np_out, copy=not zero_copy)
+                    if v == 1 and not isinstance(sd.get("molecule"), dict):
+                        out.violations.append(Finding("oracle:to_schema_layout", case, observed=sorted(map(str, sd))[:8], expected="a 'molecule' entry holding the molecule keys",
+                                                      detail="the version-1 schema dictionary has no nested 'molecule' dictionary (from_schema cannot read it back)"))
+                        continue
                     snap_geom = np.array(sd["molecule"]["geometry"] if v == 1 else sd["geometry"], dtype=float).copy()
                     changed = [k for k in rec if not _same_value(rec[k], work.get(k))] + [k for k in work if k not in rec]
                     if changed:
@@ -1414,9 +1455,24 @@ def check_toschema(ctx, out: Outcome, recs):
                     out.violations.append(Finding("oracle:roundtrip", case, observed={k: repr(back.get(k))[:200] for k in diffs}, expected={k: repr(rec.get(k))[:200] for k in diffs}, detail="from_schema(to_schema(molrec)) does not reproduce the molrec in: " + ",".join(diffs)))
             except Exception as e:
                 out.violations.append(Finding("oracle:roundtrip", case, observed=err_class(e) + ": " + str(e)[:200], detail="from_schema(to_schema(molrec)) raised"))
-            # ---- correspondence with the model
+            # ---- correspondence with the model: the hand model, then the source-derived voice (same comparison; the second also
+            #      says what the caller's record holds after the call, for this call's copy flag)
             if ml is None:
                 continue
+            sl = src_lines[np_out]
+            if sl is None or sl.count("|") != 22:
+                out.mismatches.append(Finding("mismatch:to_schema_src", case, observed=str(sl)[:200], expected=ml[:200], detail="the source-derived to_schema (Gen/MolSchemaSrc.lean) does not produce a dictionary where the hand model does"))
+            else:
+                head, caller = sl.rsplit("|", 1)
+                if head != ml:
+                    out.mismatches.append(Finding("mismatch:to_schema_src", case, observed=head[:400], expected=ml[:400], detail="the source-derived to_schema and the hand model Model/MolSchema.lean differ on this record (Props/C09Src.lean proves them equal)"))
+                try:
+                    cg = parse_terms(caller, pfrac)
+                    held = exact(np.asarray(work["geom"], dtype=float).ravel())
+                    if len(held) != len(cg) or not all(close(a, b) for a, b in zip(held, cg)):
+                        out.mismatches.append(Finding("mismatch:to_schema_src", case, observed=np.asarray(work["geom"]).ravel().tolist()[:9], expected=caller[:200], detail=f"geometry held by the caller's record after to_schema(copy={not zero_copy}) differs from the source-derived evaluation"))
+                except Exception as ex:
+                    out.mismatches.append(Finding("mismatch:driver", case, observed=str(ex), detail="srctoschema caller geometry not parseable"))
             parts = ml.split("|")
             if len(parts) != 22:
                 out.mismatches.append(Finding("mismatch:driver", case, observed=ml[:200], detail="toschema line not processed"))
@@ -1572,10 +1628,14 @@ def check_fromschema(ctx, out: Outcome, dicts):
         except Exception:
             out.count("fromschema_unencodable")
     model_out = [None] * len(lines)
+    src_out = [None] * len(lines)
     if ctx.model_available:
-        model_out = ctx.run_model(DRIVER, lines)
-    for (label, sd), ml in zip(keep, model_out):
+        both = ctx.run_model(DRIVER, lines + ["src" + ln for ln in lines])
+        model_out, src_out = both[:len(lines)], both[len(lines):]
+    for (label, sd), ml, sl in zip(keep, model_out, src_out):
         case = {"stream": "schema_dict", "dict": jsonable(sd)}
+        if ml is not None and sl != ml:
+            out.mismatches.append(Finding("mismatch:from_schema_src", case, observed=str(sl)[:300], expected=ml[:300], detail=f"the source-derived from_schema (Gen/MolSchemaSrc.lean) and the hand model differ ({label}); Props/C09Src.lean proves them equal"))
         res = spy_from_schema(sd)
         out.evaluations += 1
         tagc = res[0] if res[0] == "args" else "err:" + res[1]
@@ -1637,8 +1697,15 @@ def run_partb(ctx, out: Outcome):
     dicts = []
     for kw, rec in recs:
         for v in (1, 2):
-            with contextlib.redirect_stdout(io.StringIO()):
-                sd = to_schema(copy.deepcopy(rec), dtype=v, np_out=rng.random() < 0.5)
+            np_flag = rng.random() < 0.5
+            try:
+                with contextlib.redirect_stdout(io.StringIO()):
+                    sd = to_schema(copy.deepcopy(rec), dtype=v, np_out=np_flag)
+                if v == 1 and not isinstance(sd.get("molecule"), dict):
+                    raise KeyError("molecule")
+            except Exception as e:  # already reported by check_toschema (oracle:to_schema_raises / oracle:to_schema_layout) for the same record
+                out.count("partb_to_schema_unusable:" + err_class(e))
+                continue
             dicts.append((f"valid:v{v}", sd))
             for _ in range(2):
                 label, bad = malform(rng, sd, v)
@@ -1861,6 +1928,59 @@ def run_partc(ctx, out: Outcome):
 
 
 # ------------------------------------------------------------------------------------------------------
+# string route: Molecule.from_data(text) = from_string -> to_schema(dtype=2, np_out=True) -> _filter_defaults -> Molecule(validate=False)
+# Here _filter_defaults acts on a dictionary the caller did NOT spell out, so nothing restores an entry it drops: the masses the parser
+# validated must be the masses the Molecule holds (property clause "translating a validated molecule to a schema dictionary and back
+# reproduces it", Molecule level).  Elements whose default mass is an exact integer (C-12 = 12.0) are over-represented on purpose.
+
+def gen_mass_text(rng):
+    from qcelemental import periodictable
+
+    n = rng.randint(1, 3)
+    syms = [rng.choice(["C", "C", "C", "H", "O", "N", "F"]) for _ in range(n)] if rng.random() < 0.6 else ["C"] * n
+    rows = []
+    for i, s in enumerate(syms):
+        lab = s
+        if rng.random() < 0.75:
+            mass = periodictable.to_mass(s) + rng.choice([0.0, 1e-8, 3e-6, 4e-4, -2e-4, 1e-5])
+            lab = f"{s}@{mass:.8f}"
+        rows.append(f"{lab} {round(rng.uniform(-1, 1), 4)} {round(rng.uniform(-1, 1), 4)} {round(2.5 * i + rng.uniform(-0.3, 0.3), 4)}")
+    return "\n".join(rows)
+
+
+def check_from_data_text(ctx, out: Outcome, texts):
+    import qcelemental as qcel
+    from qcelemental.molparse import from_string
+
+    for text in texts:
+        case = {"stream": "from_data", "text": text}
+        try:
+            with contextlib.redirect_stdout(io.StringIO()):
+                rec = from_string(text)["qm"]
+        except Exception as e:
+            out.count("from_data_text_refused:" + err_class(e))  # not a valid molecule: outside the quantifier
+            continue
+        out.evaluations += 1
+        out.nontrivial(("from_data", len(rec["elem"]), "@" in text, len(set(rec["elem"])) == 1))
+        try:
+            with contextlib.redirect_stdout(io.StringIO()):
+                m = qcel.models.Molecule.from_data(text)
+        except Exception as e:
+            out.violations.append(Finding("oracle:from_data_masses", case, observed=err_class(e) + ": " + str(e)[:200], detail="Molecule.from_data raised on a text from_string validates"))
+            continue
+        got = [Fraction(float(x)) for x in m.masses]
+        want = [Fraction(float(x)) for x in rec["mass"]]
+        if got != want:
+            out.violations.append(Finding("oracle:from_data_masses", case, observed=[float(x) for x in m.masses], expected=[float(x) for x in rec["mass"]],
+                                          detail="the Molecule built from the text does not hold the masses the parser validated (lost between to_schema and the constructor)"))
+
+
+def run_from_data_text(ctx, out: Outcome):
+    rng = ctx.rng
+    check_from_data_text(ctx, out, [gen_mass_text(rng) for _ in range(ctx.scale(60, 600))])
+
+
+# ------------------------------------------------------------------------------------------------------
 
 
 def tie_and_wf(ctx, out: Outcome):
@@ -1975,6 +2095,7 @@ def run(ctx: Ctx) -> Outcome:
             check_molecule_rebuild(ctx, out, inst, case)
     run_partb(ctx, out)
     run_partc(ctx, out)
+    run_from_data_text(ctx, out)  # last: draws from ctx.rng after every other stream
     out.exhaustive = False
     out.notes.append("all streams sampled from VERIF_SEED; the schema tie and the pattern table are exhaustive over what the six schemas contain")
     return out
@@ -1995,6 +2116,8 @@ def replay(ctx: Ctx, case) -> Outcome:
         check_fromschema(ctx, out, [("replay", case["dict"])])
     elif stream == "construct":
         check_construct(ctx, out, [case["kwargs"]])
+    elif stream == "from_data":
+        check_from_data_text(ctx, out, [case["text"]])
     elif stream == "document":
         model, d2 = case["model"], case["document"]
         ml = ctx.run_model(DRIVER, [f"val|{model}|{enc_json(d2)}"])[0] if ctx.model_available else None
